@@ -11,7 +11,7 @@ for p in selftest/mutants/*.patch; do
   prop=$(cut -d' ' -f1 "$exp"); want=$(cut -d' ' -f2- "$exp")
   D=$(mktemp -d /tmp/govc-self-XXXXXX)
   rsync -a --exclude .git /repo/ "$D/repo/"
-  mkdir -p "$D/verif/contracts"; cp -r contracts/trusted "$D/verif/contracts/"; cp known_findings.json "$D/verif/"
+  mkdir -p "$D/verif/contracts"; cp -r contracts/trusted "$D/verif/contracts/"; cp known_findings.json "$D/verif/"; cp -r bounded "$D/verif/" 2>/dev/null
   if ! (cd "$D/repo" && patch -p1 -s < "/verif/$p"); then echo "SELFTEST $name: patch does not apply"; fail=1; rm -rf "$D"; continue; fi
   if ! (cd "$D/repo" && go build ./... 2>/dev/null); then echo "SELFTEST $name: mutant does not build"; fail=1; rm -rf "$D"; continue; fi
   out=$(GOVC_REPO="$D/repo" GOVC_VERIF="$D/verif" bin/govc check -prop "$prop" 2>&1)
